@@ -194,6 +194,33 @@ def generate(rng, n, tier="quick"):
         case = session({"escape": escn}, [("main", L + "{{#each v}}{{@index}}{{/each}}" + R)], {"api": "render", "name": "main"}, {"v": arr})
         case["id"] = "%s-thmidx%04d" % (ID, k)
         out.append((case, {"prov": "thmidx", "oracle": ["must", L + "".join(esc(str(i)) for i in range(nel)) + R], "len": nel}))
+    # the family of C07.each_block_key_names_each_entry: L ++ {{#each v}}{{@key}}{{/each}} ++ R for any OBJECT under v: esc(k) for every
+    # entry's key, in the map's order (keys sorted as byte strings), once each (closed form, exact)
+    KEYS = ["a", "b", "A", "0", "10", "9", "k k", "<", "&amp;", "\u00e9", "\u4e2d", "\U0001F600", "", " ", "this", "@key", "a.b", "[x]", "z", "aa", "\uffff"]
+    for k in range(60 if tier != "thorough" else 1000):
+        r = rng.fork("thmkey%d" % k)
+        L, R = thm_left(r), thm_right(r)
+        ks = r.shuffle(KEYS)[:r.pick([0, 1, 2, 3, 5, 9, 15])]
+        obj = {kk: r.pick([None, 0, "", "x", [], {"a": 1}, True]) for kk in ks}
+        escn = r.pick(["none", "mark", "html"])
+        esc = escape_of(escn)
+        case = session({"escape": escn}, [("main", L + "{{#each v}}{{@key}}{{/each}}" + R)], {"api": "render", "name": "main"}, {"v": obj})
+        case["id"] = "%s-thmkey%04d" % (ID, k)
+        order = sorted(obj.keys(), key=lambda x: x.encode("utf-8"))
+        out.append((case, {"prov": "thmkey", "oracle": ["must", L + "".join(esc(kk) for kk in order) + R], "len": len(ks)}))
+    # the family of C07.each_block_parent_path_reads_the_outer_scope: L ++ {{#each v}}{{../x}}{{/each}} ++ R: escape(text of data.x) once per
+    # element, whatever the elements hold under x (closed form, exact)
+    for k in range(50 if tier != "thorough" else 1000):
+        r = rng.fork("thmup%d" % k)
+        L, R = thm_left(r), thm_right(r)
+        nel = r.pick([0, 1, 2, 3, 7, 20])
+        arr = [r.pick([None, 0, "", {"x": "INNER"}, [], {"x": 1, "k": 2}, True]) for _ in range(nel)]
+        val, txt = r.pick([("<o>&", "<o>&"), ("outer", "outer"), ("", ""), (7, "7"), (True, "true"), (None, ""), ([1, "a"], "[1, a]"), ({"k": 1}, "[object]")])
+        escn = r.pick(["none", "mark", "html"])
+        esc = escape_of(escn)
+        case = session({"escape": escn}, [("main", L + "{{#each v}}{{../x}}{{/each}}" + R)], {"api": "render", "name": "main"}, {"v": arr, "x": val})
+        case["id"] = "%s-thmup%04d" % (ID, k)
+        out.append((case, {"prov": "thmup", "oracle": ["must", L + esc(txt) * nel + R], "len": nel}))
     return out
 
 
